@@ -292,7 +292,7 @@ package server
 // exactly that term only, so a snapshot stream of a superseded leader can never lower
 // the term; a node without a term adopts the term of the chunks.
 //
-//@ func followerController.readSnapshotStream(fc, stream, loader) (size, err)
+//@ func followerController.readSnapshotStream(fc, stream, loader, firstChunk) (size, err)
 //@ property C04 C05
 //@ requires stream != nil && loader != nil && fc.log != nil
 //@ loop 0 invariant old(fc.term) != -1 ==> fc.term == old(fc.term)
